@@ -16,8 +16,8 @@ CONSTANTS
   MaxCmds = 2
   MaxCur = 1
   MaxCps = 0
-  MaxTotCmds = 4
-  MaxTotUps = 4
+  MaxTotCmds = 3
+  MaxTotUps = 3
   MaxFUps = 2
   MaxIdx = 7
   NoErr = TRUE
